@@ -601,6 +601,10 @@ class FlowState:
     # an early 'start_new_flow_instance' label
     new_instance_started: bool = False
 
+    # True once the flow has reached the 'started' status, i.e., it arrived at its
+    # first waiting statement (or finished) at least once
+    has_started: bool = False
+
     # The flow event name mapping
     _event_name_map: dict = field(init=False)
 
@@ -612,6 +616,8 @@ class FlowState:
     @status.setter
     def status(self, status: FlowStatus) -> None:
         self._status = status
+        if status == FlowStatus.STARTED:
+            self.has_started = True
         self.status_updated = datetime.now()
 
     @property
